@@ -858,7 +858,7 @@ where
             hashbrown::hash_map::Entry::Occupied(o) => {
                 if let Some(err) = o.get() {
                     let err = err.clone();
-                    inp.add_alt_err(&before.inner /*&err.pos*/, err.err);
+                    inp.add_alt_err(&err.pos, err.err);
                 } else {
                     let err_span = inp.span_since(&before);
                     // TODO: Is this an appropriate way to handle infinite recursion?
@@ -874,8 +874,8 @@ where
         let res = self.parser.go::<M>(inp);
 
         if res.is_err() {
-            let alt = inp.take_alt();
-            inp.memos.insert(key, alt);
+            // Remember the pending error, but leave it in place: the failure must stay visible to the caller
+            inp.memos.insert(key, inp.errors.alt.clone());
         } else {
             inp.memos.remove(&key);
         }
